@@ -98,7 +98,7 @@ func (stdin *Stdin) ReadAll() ([]byte, error) {
 
 read:
 	stdin.mutex.Lock()
-	stdin.bRead = uint64(len(stdin.buffer))
+	stdin.bRead += uint64(len(stdin.buffer))
 	b := stdin.buffer
 	stdin.mutex.Unlock()
 	return b, nil
